@@ -109,6 +109,14 @@ def gen_cfg(rng):
             c["default"] = rng.choice(real)
         if r in (1, 2):
             c["deprecated"] = rng.choice(["auto", [s for s in schemes if s != c.get("default", cfg["default"]) and rng.random() < 0.5]])
+            if isinstance(c["deprecated"], list) and not c.get("default", cfg["default"]):
+                # without an explicit default the first non-deprecated scheme becomes the category's default:
+                # keep a real scheme there (a disabled-account hasher as default makes every new hash a locked marker - a misconfiguration, not a case)
+                first = next((s for s in schemes if s not in c["deprecated"]), None)
+                if first in (None, "unix_disabled"):
+                    c["deprecated"] = [s for s in c["deprecated"] if s != real[0]]
+                    if schemes.index(real[0]) > (schemes.index("unix_disabled") if "unix_disabled" in schemes else len(schemes)):
+                        del c["deprecated"]
         o = {}
         for s in schemes:
             if s in ROUNDS and rng.random() < 0.5:
